@@ -14,12 +14,13 @@ package batcher
 //             value offered is i.value, each subscriber sequence extended by at most this value at its end.
 //   subscribe / forwarder / exit / Close: as in C11; the exit closes the subscriber channel exactly once
 //             ([C10.exit.closes.sub]: "every subscriber channel has been closed").
-// FAIL (registered known findings): [C10.exec.departure] execute's blocking select has no case that a departing
-// subscriber can trigger (only the buffer send and closeCh), and [C10.close.releases] closeCh is closed under the lock
-// that a blocked execute holds: a subscriber whose context ends with a full buffer wedges the batcher for good.
+// Repaired (48132ca), formerly known findings, now proved: [C10.exec.select] execute's blocking select listens on the
+// entry's own exit channel (closed by the departing forwarder BEFORE it asks for the lock: [C10.exit.closefirst]), and
+// [C10.close.releases] closeCh is closed without holding the lock; [C10.close.signal.first] the signal precedes
+// queue.Close (a blocked execute keeps the queue's loop busy), [C10.close.barrier] Lock/Unlock pair after both, before Wait.
 
 //@ assume-text channels (Go spec): the values sent on one subscriber buffer (eventCh.ch, capacity 50) are received by its single receiver, the forwarder, exactly once each and in the order of the sends; this links the ghost sequence eventCh.pushed ([C10.exec.*]) to the forwarder's ghost sequence recvd ([C10.fwd.*]) and is not modelled
-//@ assume-text channels: a receive (case) on Batcher.closeCh or ctx.Done() completes only once that channel is closed, because nobody sends on them ([C10.exec.select], [C10.fwd.sends.own], [C10.*.nosend]); stated as `at select assume ... ==> chdone[selchan]` on the statement's own operands; chdone is the monotone ghost "closed"
+//@ assume-text channels: a receive (case) on eventCh.closeEventCh, Batcher.closeCh or ctx.Done() completes only once that channel is closed, because nobody sends on them ([C10.exec.select], [C10.fwd.sends.own], [C10.*.nosend]); stated as `at select assume ... ==> chdone[selchan]` on the statement's own operands; chdone is the monotone ghost "closed"
 //@ assume-text sync.WaitGroup: Wait returns only after every goroutine registered by Add has called Done (not modelled; [C10.sub.registered], [C10.exit.done])
 //@ assume-text events/queue (C06) is relied on through its contracts: Enqueue of an item whose key is queued replaces it, the callback is invoked with the head when due, after it was popped; qkey(i) / qsched(i) of an *item are i.key / unixNano(i.ttl) ([C10.item.key], [C10.item.time] are the bodies of Key / ScheduledTime; the identification with the uninterpreted qkey / qsched is not machine-checked)
 //@ assume-text Batcher.closed (atomic.Bool): the engine treats it as stable within one call; clauses about "not closed" refer to the value the function's own Load returned under the lock (ghost wasclosed)
@@ -84,20 +85,12 @@ package batcher
 //@   at before call Unlock#0 label U
 //@   loop 0 invariant b == old(b) && i == old(i) && heldw(b.lock) && -1 <= rangeindex && rangeindex < len(b.eventChs) && nvis == rangeindex + 1
 //@   loop 0 invariant b.eventChs == at(L, b.eventChs)
-//@   loop 0 invariant [C10.exec.inv.done] forall j :: 0 <= j && j < nvis ==> (b.eventChs[j].npush == at(L, b.eventChs[j].npush) + (sentto[j] ? 1 : 0) && (sentto[j] ==> b.eventChs[j].pushed[at(L, b.eventChs[j].npush)] == i.value) && (!sentto[j] ==> chdone[b.closeCh]))
+//@   loop 0 invariant [C10.exec.inv.done] forall j :: 0 <= j && j < nvis ==> (b.eventChs[j].npush == at(L, b.eventChs[j].npush) + (sentto[j] ? 1 : 0) && (sentto[j] ==> b.eventChs[j].pushed[at(L, b.eventChs[j].npush)] == i.value) && (!sentto[j] ==> (chdone[b.eventChs[j].closeEventCh] || chdone[b.closeCh])))
 //@   loop 0 invariant [C10.exec.inv.prefix] forall j, k :: (0 <= j && j < len(b.eventChs) && k < at(L, b.eventChs[j].npush)) ==> b.eventChs[j].pushed[k] == at(L, b.eventChs[j].pushed[k])
 //@   loop 0 invariant [C10.exec.inv.todo] forall j :: nvis <= j && j < len(b.eventChs) ==> b.eventChs[j].npush == at(L, b.eventChs[j].npush)
-//@   at every select assert [C10.exec.select] selblocking && selhassend(ev.ch) && selhas(b.closeCh) && (forall c :: selhassend(c) ==> c == ev.ch)
-// statement: "A subscriber whose context ends - even with undelivered events buffered for it - never blocks delivery to the
-// others, later Batch calls or Close": the select must have a receive case besides closeCh that the departing subscriber
-// can make ready without the lock (the broadcaster's closeEventCh). FAILS on the code: known finding.
-//@   ghost noexit int
-//@   at entry ghost noexit = 0
-//@   at every select ghost noexit = noexit + ((exists c :: selhas(c) && c != b.closeCh) ? 0 : 1)
-//@   loop 0 invariant [C10.exec.departure] noexit == 0
-//@   ensures [C10.exec.departure] noexit == 0
+//@   at every select assert [C10.exec.select] selblocking && selcases == 3 && selhas(ev.closeEventCh) && selhassend(ev.ch) && selhas(b.closeCh)
 //@   at every select assert [C10.exec.visit] ev == b.eventChs[nvis]
-//@   at every select assume (res0 >= 0 && !selsend && selchan == b.closeCh) ==> chdone[selchan]
+//@   at every select assume (res0 >= 0 && !selsend) ==> chdone[selchan]
 //@   at every select ghost snt = (res0 >= 0 && selsend && selchan == ev.ch)
 //@   at every select ghost sentto = update(sentto, nvis, snt)
 //@   at every select assert [C10.exec.samevalue] (res0 >= 0 && selsend) ==> selsendval == i.value
@@ -113,42 +106,52 @@ package batcher
 //@   ensures [C10.exec.once] !wasclosed ==> (forall j :: 0 <= j && j < at(L, len(b.eventChs)) ==> at(U, b.eventChs[j].npush) == at(L, b.eventChs[j].npush) + (sentto[j] ? 1 : 0))
 //@   ensures [C10.exec.value] !wasclosed ==> (forall j :: (0 <= j && j < at(L, len(b.eventChs)) && sentto[j]) ==> at(U, b.eventChs[j].pushed[at(L, b.eventChs[j].npush)]) == i.value)
 //@   ensures [C10.exec.prefix] forall j, k :: (0 <= j && j < at(L, len(b.eventChs)) && k < at(L, b.eventChs[j].npush)) ==> at(U, b.eventChs[j].pushed[k]) == at(L, b.eventChs[j].pushed[k])
-//@   ensures [C10.exec.skipped] !wasclosed ==> (forall j :: (0 <= j && j < at(L, len(b.eventChs)) && !sentto[j]) ==> (at(L, b.eventChs[j]) != nil && chdone[b.closeCh]))
+//@   ensures [C10.exec.skipped] !wasclosed ==> (forall j :: (0 <= j && j < at(L, len(b.eventChs)) && !sentto[j]) ==> (chdone[at(L, b.eventChs[j].closeEventCh)] || chdone[b.closeCh]))
 
 //@ func (*Batcher).Close
 //@   tags C10
-//@   requires b != nil && b.queue != nil && inv(b.queue)
+//@   requires b != nil && b.queue != nil && inv(b.queue) && b.queue.stopCh != b.closeCh
 //@   requires b.queue.stopped.v == 0 ==> !chdone[b.queue.stopCh]
+//@   requires [C10.close.pre] b.closed.v == 0 ==> !chdone[b.closeCh]
 //@   ghost waited bool
 //@   ghost nclose int
 //@   ghost won bool
 //@   ghost qclosed bool
+//@   ghost signalled bool
+//@   ghost lockedafter bool
+//@   ghost passed bool
 //@   at entry ghost waited = false
 //@   at entry ghost nclose = 0
 //@   at entry ghost won = false
 //@   at entry ghost qclosed = false
+//@   at entry ghost signalled = false
+//@   at entry ghost lockedafter = false
+//@   at entry ghost passed = false
 //@   at every call Store assert [C10.closed.monotone] false
 //@   at every before call CompareAndSwap assert [C10.closed.monotone] !arg1 && arg2
+//@   at every before call CompareAndSwap assert [C10.close.cas.once] !signalled
 //@   at every call CompareAndSwap ghost won = res0
-//@   at every before call Close assert [C10.close.queue.unlocked] arg0 == b.queue && nolocks()
-//@   at every call Close ghost qclosed = true
-//@   at every before close assert [C10.close.closes] arg0 == b.closeCh && won && nclose == 0
-// statement: "never blocks ... Close": the close signal must be given without the lock a blocked execute holds. FAILS: known finding.
-//@   ghost underlock bool
-//@   at entry ghost underlock = false
-//@   at every before close ghost underlock = (underlock || held(b.lock))
-//@   ensures [C10.close.releases] !underlock
+//@   at every call CompareAndSwap ghost signalled = !won
+//@   at every before close assert [C10.close.closes] arg0 == b.closeCh && !chdone[arg0] && won && nclose == 0
+//@   at every before close assert [C10.close.releases] !held(b.lock)
 //@   at every close ghost chdone = update(chdone, arg0, true)
 //@   at every close ghost nclose = nclose + 1
-//@   at every before call Wait assert [C10.close.wait.unlocked] !held(b.lock)
-//@   at every before call Wait assert [C10.close.wait.signalled] b.closed.v != 0 && (won ==> chdone[b.closeCh]) && qclosed
+//@   at every close ghost signalled = true
+// the signal precedes queue.Close: an execute blocked on a subscriber buffer keeps the queue's loop busy and is released
+// only by closeCh, so queue.Close could wait for ever otherwise. (queue.Close has no frame: the facts are checked here.)
+//@   at every before call Close assert [C10.close.signal.first] arg0 == b.queue && signalled && b.closed.v != 0 && (won ==> chdone[b.closeCh]) && nolocks()
+//@   at every call Close ghost qclosed = true
+//@   at every call Lock ghost lockedafter = (signalled && qclosed)
+//@   at every call Unlock ghost passed = (passed || lockedafter)
+//@   at every call Unlock ghost lockedafter = false
+//@   at every before call Wait assert [C10.close.barrier] passed && !held(b.lock)
+//@   at every before call Wait assert [C10.close.wait.signalled] signalled && qclosed
 //@   at every call Wait ghost waited = true
 //@   at every before send assert [C10.close.nosend] false
 //@   at every select assert [C10.close.noselect] false
 //@   at every before recv assert [C10.close.norecv] false
-//@   ensures [C10.close.closed] b.closed.v != 0 && (won ==> chdone[b.closeCh])
-//@   ensures [C10.close.once] nclose == (won ? 1 : 0)
-//@   ensures [C10.close.joined] waited && qclosed && nolocks()
+//@   ensures [C10.close.once] nclose == (won ? 1 : 0) && won == (old(b.closed.v) == 0)
+//@   ensures [C10.close.joined] waited && signalled && qclosed && nolocks()
 
 // New is not under contract: the call NewProcessor[K, *item[K, T]] makes the engine instantiate the C06 heap predicates
 // (hord ...) at a pointer type and the translation fails (sort (Array Int Int) vs (Array Int TP)): engine limitation.
@@ -178,6 +181,7 @@ package batcher
 //@   at store eventChs#0 ghost b.eventChs[len(b.eventChs) - 1].sub = ch
 //@   at store eventChs#0 ghost b.slot = update(b.slot, id, len(b.eventChs) - 1)
 //@   at store eventChs#0 ghost b.eventChs[len(b.eventChs) - 1].npush = 0
+//@   at store closeEventCh#0 ghost chdone = update(chdone, arg0, false)
 //@   at every before send assert [C10.sub.nosend] false
 //@   at every select assert [C10.sub.noselect] false
 //@   at every before recv assert [C10.sub.norecv] false
@@ -192,20 +196,26 @@ package batcher
 //@   ensures [C10.sub.kept] len(b.eventChs) >= old(len(b.eventChs)) && (forall j :: 0 <= j && j < old(len(b.eventChs)) ==> b.eventChs[j] == old(b.eventChs[j]))
 //@   ensures [C10.sub.added] !wasclosed ==> (len(b.eventChs) == old(len(b.eventChs)) + 1 && b.currentID == old(b.currentID) + 1)
 //@   ensures [C10.sub.added.spawn] !wasclosed ==> (spawned == 1 && reg == 1)
-//@   ensures [C10.sub.entry] len(b.eventChs) == old(len(b.eventChs)) + 1 ==> (fresh(b.eventChs[len(b.eventChs) - 1]) && b.eventChs[len(b.eventChs) - 1].id == old(b.currentID) && b.eventChs[len(b.eventChs) - 1].sub == ch && b.eventChs[len(b.eventChs) - 1].npush == 0 && cap(b.eventChs[len(b.eventChs) - 1].ch) > 0)
+//@   ensures [C10.sub.entry] len(b.eventChs) == old(len(b.eventChs)) + 1 ==> (fresh(b.eventChs[len(b.eventChs) - 1]) && b.eventChs[len(b.eventChs) - 1].id == old(b.currentID) && b.eventChs[len(b.eventChs) - 1].sub == ch && b.eventChs[len(b.eventChs) - 1].npush == 0 && cap(b.eventChs[len(b.eventChs) - 1].ch) > 0 && !chdone[b.eventChs[len(b.eventChs) - 1].closeEventCh])
 
 //@ func (*Batcher).subscribe$1$1
 //@   tags C10
 //@   requires b != nil && !held(b.lock)
+//@   requires [C10.exit.once] !chdone[closeEventCh]
 //@   ghost pos int
 //@   ghost ndone int
 //@   ghost nclose int
+//@   ghost nexitclose int
 //@   at entry ghost pos = -1
 //@   at entry ghost ndone = 0
 //@   at entry ghost nclose = 0
-//@   at every before close assert [C10.exit.closes.sub] arg0 == ch && nclose == 0
+//@   at entry ghost nexitclose = 0
+// every close is either the exit channel (first, once, unlocked) or the subscriber channel (once, under the lock)
+//@   at every before close assert [C10.exit.closes] (arg0 == closeEventCh && nexitclose == 0 && nclose == 0 && !chdone[arg0] && !held(b.lock)) || (arg0 == ch && nexitclose == 1 && nclose == 0 && heldw(b.lock))
+//@   at every close ghost nexitclose = nexitclose + ((arg0 == closeEventCh && nexitclose == 0 && nclose == 0) ? 1 : 0)
+//@   at every close ghost nclose = nclose + ((chdone[closeEventCh] && arg0 == ch) ? 1 : 0)
 //@   at every close ghost chdone = update(chdone, arg0, true)
-//@   at every close ghost nclose = nclose + 1
+//@   at every before call Lock assert [C10.exit.closefirst] chdone[closeEventCh] && nexitclose == 1
 //@   at call Lock#0 label L
 //@   at before call Unlock#0 label U
 //@   loop 0 invariant b == old(b) && heldw(b.lock) && pos == -1 && -1 <= rangeindex && rangeindex < len(b.eventChs) && b.eventChs == at(L, b.eventChs)
@@ -219,7 +229,9 @@ package batcher
 //@   at every before send assert [C10.exit.nosend] false
 //@   at every select assert [C10.exit.noselect] false
 //@   at every before recv assert [C10.exit.norecv] false
+//@   ensures [C10.exit.closed] chdone[closeEventCh]
 //@   ensures [C10.exit.closed.sub] chdone[ch]
+//@   ensures [C10.exit.closed.exit.once] nexitclose == 1
 //@   ensures [C10.exit.closed.once] nclose == 1
 //@   ensures [C10.exit.done] ndone == 1 && nolocks()
 //@   ensures [C10.exit.absent] pos == -1 ==> ((forall j :: 0 <= j && j < at(L, len(b.eventChs)) ==> at(L, b.eventChs[j].id) != id) && at(U, b.eventChs) == at(L, b.eventChs))
@@ -233,7 +245,8 @@ package batcher
 //@   tags C10
 //@   opt go=detached
 //@   requires b != nil && ctx != nil
-//@   requires [C10.fwd.bound] len(b.eventChs) > 0 && b.eventChs[len(b.eventChs) - 1].id == id && b.eventChs[len(b.eventChs) - 1].ch == bufferedCh && b.eventChs[len(b.eventChs) - 1].sub == ch
+//@   requires [C10.fwd.bound] len(b.eventChs) > 0 && b.eventChs[len(b.eventChs) - 1].id == id && b.eventChs[len(b.eventChs) - 1].ch == bufferedCh && b.eventChs[len(b.eventChs) - 1].closeEventCh == closeEventCh && b.eventChs[len(b.eventChs) - 1].sub == ch
+//@   requires [C10.fwd.open] !chdone[closeEventCh]
 //@   ghost nrecv int
 //@   ghost recvd [int]tp
 //@   ghost lastsent int
@@ -247,8 +260,8 @@ package batcher
 //@   at entry ghost stopseen = false
 //@   at entry ghost nexit = 0
 //@   at every select assert [C10.fwd.sends.own] forall c :: selhassend(c) ==> c == ch
-//@   loop 0 invariant b == old(b) && ctx == old(ctx) && ch == old(ch) && bufferedCh == old(bufferedCh) && id == old(id)
-//@   loop 0 invariant nolocks() && nexit == 0
+//@   loop 0 invariant b == old(b) && ctx == old(ctx) && ch == old(ch) && bufferedCh == old(bufferedCh) && closeEventCh == old(closeEventCh) && id == old(id)
+//@   loop 0 invariant nolocks() && nexit == 0 && !chdone[closeEventCh]
 //@   loop 0 invariant [C10.fwd.inv] lastsent < nrecv && nsends <= nrecv
 //@   at select#0 assert [C10.fwd.listens] selblocking && selcases == 3 && selhas(ctx.donech) && selhas(b.closeCh) && selhas(bufferedCh) && (forall c :: !selhassend(c))
 //@   at select#0 assume (res0 >= 0 && !selsend && (selchan == ctx.donech || selchan == b.closeCh)) ==> chdone[selchan]
@@ -271,7 +284,7 @@ package batcher
 //@   at every before close assert [C10.fwd.noclose] false
 //@   at every before call subscribe$1$1 assert [C10.fwd.exit] stopseen && (chdone[ctx.donech] || chdone[b.closeCh])
 //@   at every call subscribe$1$1 ghost nexit = nexit + 1
-//@   ensures [C10.fwd.exits] nexit == 1 && chdone[ch] && nolocks()
+//@   ensures [C10.fwd.exits] nexit == 1 && chdone[closeEventCh] && chdone[ch] && nolocks()
 //@   ensures [C10.fwd.order] allsends == nsends && nsends <= nrecv && lastsent < nrecv
 
 //@ func (*Batcher).Subscribe
